@@ -86,3 +86,4 @@ def build(eng, tier):
     serde_targets.add_tensor_shape_target(eng)
     serde_targets.add_graph_annotation_target(eng)
     serde_targets.add_graph_initializer_target(eng)
+    serde_targets.add_graph_io_target(eng)
